@@ -326,21 +326,26 @@ impl ParallelPipeline {
 
         let num_operators = operators.len();
         let mut current_chunk = chunk;
+        let mut stop = false;
 
         for i in 0..num_operators {
             let is_last = i == num_operators - 1;
 
             if is_last {
-                return operators[i].push(current_chunk, sink);
+                let cont = operators[i].push(current_chunk, sink)?;
+                return Ok(cont && !stop);
             }
 
             // Intermediate: collect output
             let mut collector = ChunkCollector::new();
             let continue_processing = operators[i].push(current_chunk, &mut collector)?;
 
-            if !continue_processing || collector.is_empty() {
-                return Ok(continue_processing);
+            // An operator that asks to stop (a satisfied LIMIT) may still have produced
+            // output with this very call: forward it before stopping.
+            if collector.is_empty() {
+                return Ok(continue_processing && !stop);
             }
+            stop |= !continue_processing;
 
             current_chunk = collector.into_single_chunk();
         }
@@ -388,25 +393,31 @@ impl ParallelPipeline {
     ) -> Result<bool, OperatorError> {
         let num_operators = operators.len();
         let mut current_chunk = chunk;
+        let mut stop = false;
 
         for i in start..num_operators {
             let is_last = i == num_operators - 1;
 
             if is_last {
-                return operators[i].push(current_chunk, sink);
+                let cont = operators[i].push(current_chunk, sink)?;
+                return Ok(cont && !stop);
             }
 
             let mut collector = ChunkCollector::new();
             let continue_processing = operators[i].push(current_chunk, &mut collector)?;
 
-            if !continue_processing || collector.is_empty() {
-                return Ok(continue_processing);
+            // An operator that asks to stop (a satisfied LIMIT) may still have produced
+            // output with this very call: forward it before stopping.
+            if collector.is_empty() {
+                return Ok(continue_processing && !stop);
             }
+            stop |= !continue_processing;
 
             current_chunk = collector.into_single_chunk();
         }
 
-        sink.consume(current_chunk)
+        let cont = sink.consume(current_chunk)?;
+        Ok(cont && !stop)
     }
 }
 
